@@ -248,6 +248,8 @@ def gen(rnd, *, core=False, res_choices=(60, 60, 30, 15), subslot=True, alap=Non
             r["bookings"] = bs
         if limits and rnd.random() < 0.3:
             r["limits"] = {rnd.choice(["dailymax", "weeklymax"]): rnd.choice([1, 2, 3, 4, 6, 1.5, 2.5, 7.5, 3.75])}   # fractions: seeded change C05-d rounded them
+            if rnd.random() < 0.25:
+                r["limits"] = {"dailymax": rnd.choice([1, 2, 3, 4]), "weeklymax": rnd.choice([4, 6, 8, 12])}      # both kinds on one resource
         resources.append(r)
     m["resources"] = resources
     m["groups"] = []
@@ -532,7 +534,11 @@ def limit_value_text(k, v):
 
 
 def limits_text(lim):
-    return "limits { " + " ".join("%s %s" % (k, limit_value_text(k, v)) for k, v in lim.items()) + " }"
+    items = list(lim.items())
+    if len(items) >= 2 and int(items[0][1] * 4 + items[1][1] * 4) % 2 == 0:
+        # two limits written as two blocks: they add up (the second block must not replace the first)
+        return " ".join("limits { %s %s }" % (k, limit_value_text(k, v)) for k, v in items)
+    return "limits { " + " ".join("%s %s" % (k, limit_value_text(k, v)) for k, v in items) + " }"
 
 
 def render(m, refrnd=None, precrnd=None, extra_header=None, scenarios=None, trailer=""):
